@@ -22,7 +22,9 @@
  *                                   ubuf holding a copy of buf[0,size);
  *                                   seg = all | le2 | a+b+c (explicit sizes), optionally prefixed by
  *                                   w<pre>.<post>: the reader is given a window spliced out of a larger
- *                                   block (pre / post foreign octets in the first / last segment)
+ *                                   block (pre / post foreign octets in the first / last segment), or by
+ *                                   x<k>.<m>: the block is built by append, split after k octets and appended
+ *                                   to again (what pipes do to the buffers they cut and gather)
  *   end                             end of the execution
  *
  * Reader contract respected here: at most 24 bits are requested from
@@ -230,9 +232,61 @@ static void cmd_oget(long size, int off, int nw, const int *ws)
  * block - pre foreign octets (0xa5) in front, in the first segment, and post behind, in the last one, so
  * that the window crosses the segment boundaries and ends inside a segment */
 static long win_pre, win_post;
+/* split mode (seg token "x<k>.<m>:<seg>", k < size): the block is put together the way pipes do it - the
+ * first k octets and m foreign octets arrive in one append-built block, the block is split after the k
+ * octets (the foreign tail goes away) and the remaining segments are appended to what is left */
+static long split_k = -1, split_m;
+
+static struct ubuf *seg_of_bytes(const uint8_t *p, long n, int fill)
+{
+    struct ubuf *u = ubuf_block_alloc(ubuf_mgr, n);
+    if (u == NULL) { printf("err alloc\n"); exit(3); }
+    if (n > 0) {
+        int sz = -1;
+        uint8_t *w;
+        if (!ubase_check(ubuf_block_write(u, 0, &sz, &w)) || sz != n) { printf("err write\n"); exit(3); }
+        if (p != NULL) memcpy(w, p, n); else memset(w, fill, n);
+        ubuf_block_unmap(u, 0);
+    }
+    return u;
+}
+
+static struct ubuf *build_block(long size, int nseg, const int *segs);
+static struct ubuf *build_split(long size, int nseg, const int *segs)
+{
+    long k = split_k < size ? split_k : size / 2, m = split_m > 0 ? split_m : 1;
+    /* head: buf[0,k) in the given segmentation (cut at k), then two foreign segments */
+    struct ubuf *head = NULL;
+    long pos = 0;
+    for (int i = 0; i < nseg && pos < k; i++) {
+        long n = segs[i] < k - pos ? segs[i] : k - pos;
+        struct ubuf *u = seg_of_bytes(buf + pos, n, 0);
+        pos += n;
+        if (head == NULL) head = u;
+        else if (!ubase_check(ubuf_block_append(head, u))) { printf("err append\n"); exit(3); }
+    }
+    if (head == NULL) head = seg_of_bytes(buf, 0, 0);
+    if (!ubase_check(ubuf_block_append(head, seg_of_bytes(NULL, m, 0x5a))) ||
+        !ubase_check(ubuf_block_append(head, seg_of_bytes(NULL, m + 1, 0xa5)))) { printf("err append\n"); exit(3); }
+    struct ubuf *tail = ubuf_block_split(head, k);
+    if (tail == NULL) { printf("err split\n"); exit(3); }
+    ubuf_free(tail);
+    /* the rest of the octets, in the rest of the segmentation */
+    pos = 0;
+    for (int i = 0; i < nseg; i++) {
+        long a = pos, b = pos + segs[i];
+        pos = b;
+        if (b <= k) continue;
+        if (a < k) a = k;
+        if (!ubase_check(ubuf_block_append(head, seg_of_bytes(buf + a, b - a, 0)))) { printf("err append\n"); exit(3); }
+    }
+    return head;
+}
 
 static struct ubuf *build_block(long size, int nseg, const int *segs)
 {
+    if (split_k >= 0 && size >= 2)
+        return build_split(size, nseg, segs);
     struct ubuf *head = NULL;
     long pos = 0;
     for (int k = 0; k < nseg; k++) {
@@ -314,6 +368,15 @@ static void cmd_sget(long size, int off, const char *seg, int nw, const int *ws)
 {
     if (size > wend) size = wend;
     win_pre = win_post = 0;
+    split_k = -1;
+    if (seg[0] == 'x') {
+        char *e;
+        split_k = strtol(seg + 1, &e, 10);
+        split_m = 1;
+        if (*e == '.') split_m = strtol(e + 1, &e, 10);
+        if (*e != ':') { printf("err split token\n"); exit(3); }
+        seg = e + 1;
+    }
     if (seg[0] == 'w') {
         char *e;
         win_pre = strtol(seg + 1, &e, 10);
